@@ -820,3 +820,5 @@ def run(ctx):
         check_optional(ctx, tu2)
         check_layout(ctx, tu2)
         check_any(ctx, tu2)
+    from rkstatic import selftest
+    selftest.run(ctx)
